@@ -646,14 +646,37 @@ OPAQUE = ("oparse", "oround", "ojparse", "ojround", "oser", "ojser", "odec", "od
 
 def valid(seq, ops):
     have = set()
+    pre, count, version, seen_at = 0, 0, 0, []
+    shrinking = any(st.get("env") == "unload" for st in seq)
     for st in seq:
         if "env" in st:
             if st["env"] == "define":
                 if st["cid"] in have:
                     return False
                 have.add(st["cid"])
-        elif any(c not in have for c in ops[st["op"]]["needs"]):
-            return False
+                version += 1
+                count += 1 if st["bump"] else 0
+            elif st["env"] == "import":
+                count += 1
+            elif st["env"] == "preload":
+                pre += st["n"]
+                count += st["n"]
+            elif st["env"] == "unload":
+                if st["n"] > pre:
+                    return False
+                pre -= st["n"]
+                count -= st["n"]
+        else:
+            if any(c not in have for c in ops[st["op"]]["needs"]):
+                return False
+            if shrinking:
+                # histories with unloaded modules are handed to the model (whose world only grows) without the
+                # unloads: that is the same history for the real code only as long as len(sys.modules) never
+                # RETURNS to a value an earlier call saw under a different class set (that coincidence is the open
+                # finding stale-subclass-index in another guise and has its own witnesses)
+                if any(c == count and v != version for c, v in seen_at):
+                    return False
+                seen_at.append((count, version))
     return True
 
 
@@ -704,6 +727,67 @@ def gen_sequences(ck, ops):
                     if len(set(tup)) > 1:
                         seqs.append([{"op": i} for i in tup])
                         kinds["groups"] += 1
+    # module-count DECREASE: helper modules that were in sys.modules when the context built its index are
+    # unloaded and a class is defined in a new module (plugin unload / test cleanup / reload), so that
+    # len(sys.modules) ends below the remembered count and is never equal to it; the index must be rebuilt
+    kinds["unload"] = 0
+    indexers = ["find_type:Leaf", "parse-auto:PA", "dec-auto:x", "build_xsi_cache", "parse:Holder-xsi-Ext",
+                "parse:nobody", "find_type:{urn:late}Late", "jparse-auto:PA", "by_fields:y"]
+    lookers = {20: ["find_type:{urn:late}Late", "parse-auto:Late", "dec-auto:Late", "ser:Late"],
+               21: ["parse:Holder-xsi-LateDer", "find_subclass:Der,LateDer", "find_type:{urn:h}LateDer"],
+               22: ["find_types:Leaf", "find_type:Leaf", "parse-auto:Leaf2", "dec-auto:x"],
+               23: ["parse:Own2", "ser:Own2", "by_fields:y", "parse-auto:Own"]}
+    indexers = [t for t in indexers if t in by_tag]
+    shapes = []
+    for cid, ls in lookers.items():
+        for b in [t for t in ls if t in by_tag]:
+            for a in indexers:
+                for k, j in ((2, 2), (3, 3), (4, 2)):
+                    shapes.append((a, cid, b, k, j))
+    if ck.quick and len(shapes) > 150:
+        shapes = r.sample(shapes, 150)
+    for a, cid, b, k, j in shapes:
+        dfn = {"env": "define", "cid": cid, "bump": True}
+        mid = [{"env": "unload", "n": j}, dfn] if r.random() < 0.5 else [dfn, {"env": "unload", "n": j}]
+        seq = [{"env": "preload", "n": k}, {"op": by_tag[a]}] + mid + [{"op": by_tag[b]}]
+        if valid(seq, ops):
+            seqs.append(seq)
+            kinds["unload"] += 1
+    pool_u = [by_tag[t] for t in MEDIUM + [x for ls in lookers.values() for x in ls] if t in by_tag]
+    for _ in range(ck.n(60, 600)):
+        seq, have, pre = [], set(), 0
+        for _ in range(r.randint(4, 14)):
+            x = r.random()
+            if x < 0.15:
+                n = r.randint(1, 4)
+                seq.append({"env": "preload", "n": n})
+                pre += n
+            elif x < 0.3 and pre:
+                n = r.randint(1, pre)
+                seq.append({"env": "unload", "n": n})
+                pre -= n
+            elif x < 0.42:
+                cand = [d["cid"] for d in DYNAMIC if d["cid"] not in have]
+                if cand:
+                    c = r.choice(cand)
+                    have.add(c)
+                    seq.append({"env": "define", "cid": c, "bump": r.random() < 0.8})
+            elif x < 0.46:
+                seq.append({"env": "import"})
+            else:
+                i = r.choice(pool_u)
+                if all(c in have for c in ops[i]["needs"]):
+                    seq.append({"op": i})
+        while seq and "env" in seq[-1]:
+            seq.pop()
+        # keep the longest valid prefix that still contains an unload
+        while seq and not valid(seq, ops):
+            seq.pop()
+            while seq and "env" in seq[-1]:
+                seq.pop()
+        if seq and any(st.get("env") == "unload" for st in seq):
+            seqs.append(seq)
+            kinds["unload"] += 1
     # the witnesses of the refutation lemmas (coq/Properties/C14.v)
     W = [["ser:PA", "ser:PB", "parse:PB"],
          ["find_type:{urn:late}Late", ENVS[0], "find_type:{urn:late}Late", "parse-auto:Late"],
@@ -917,6 +1001,15 @@ def run(ck: Check):
                 if "env" in st:
                     if st["env"] == "define":
                         steps.append(f"StEnv (EDefine cd_{st['cid']} {cbool(st['bump'])})")
+                    elif st["env"] == "preload":
+                        steps += ["StEnv EImport"] * st["n"]
+                    elif st["env"] == "unload":
+                        # the world of the model only grows (Model/Context.v: env_step): an unload is no step of
+                        # the model.  The real code may use len(sys.modules) only to notice THAT modules changed;
+                        # `valid` keeps the count from returning to a remembered value, so the history without the
+                        # unloads is the same history for it, and the model's answers are the expected ones
+                        if out["mod"][1] != out["mod"][0] - st["n"]:
+                            raise RuntimeError("unload step did not lower len(sys.modules) as described")
                     else:
                         steps.append("StEnv EImport")
                     continue
@@ -1030,7 +1123,7 @@ def run(ck: Check):
     for i in order_idx:
         s = summ[i]
         distinct.add(tuple(st.get("op", -1 - st.get("cid", 0)) for st in seqs[i]))
-        tags = " ; ".join(ops[st["op"]]["tag"] if "op" in st else f"<{st['env']} {st.get('cid', '')}>" for st in seqs[i])
+        tags = " ; ".join(ops[st["op"]]["tag"] if "op" in st else f"<{st['env']} {st.get('cid', st.get('n', ''))}>" for st in seqs[i])
         if not s & 1:
             if s & 8 and not s & 4:
                 ck.failure("history-dependence-unexplained",
